@@ -106,11 +106,11 @@ def envFor (profs : List String) (seed : Nat) : Env :=
       if (r / 65536) % 2 == 0 then none
       else some (p, scores.getD ((r / 1048576) % scores.length) 0))
   let table := [0, 1, 2].map fun g => (g, genHits g)
-  { genes := [0, 1, 2], withHits := (table.filter fun x => !x.2.isEmpty).map (·.1),
-    hits := fun g => (table.lookup g).getD [],
-    loc := fun g => if g == 0 then .simple ⟨100, 200, .fwd⟩ else if g == 1 then .simple ⟨205, 300, .rev⟩
-                    else .simple ⟨5000, 5100, .fwd⟩,
-    cutoff := 10, circ := 0 }
+  Env.ofLocs [0, 1, 2] ((table.filter fun x => !x.2.isEmpty).map (·.1))
+    (fun g => (table.lookup g).getD [])
+    (fun g => if g == 0 then .simple ⟨100, 200, .fwd⟩ else if g == 1 then .simple ⟨205, 300, .rev⟩
+              else .simple ⟨5000, 5100, .fwd⟩)
+    10 0
 
 def semAgree (a b : Cond) : Bool :=
   let profs := sortDedupStr (a.profiles ++ b.profiles)
